@@ -8,8 +8,26 @@ from .universe import Universe
 from . import probes
 
 NAMES = ["a", "b", "A", "ab", "aB", "a_1", "n0", "B", "c"]
-BAD_IDS = ["9a", "a-b", "", "x" * 300, "a b", "&", "_a"]
+BAD_IDS = ["9a", "a-b", "", "x" * 300, "a b", "&", "_a", "caf\u00e9", "a\u0661", "sig\u00b2", "&\u00e9t\u00e9"]
 IDS = ["a", "A", "b", "B", "ab", "AB", "&9", "x_1"]
+
+
+class BulkArg(list):
+    """the members of a bulk call plus the form in which they are handed over (a bulk call accepts any iterable)"""
+    form = "list"
+
+
+def as_arg(xs):
+    f = getattr(xs, "form", "list")
+    if f == "set":
+        return set(xs)
+    if f == "tuple":
+        return tuple(xs)
+    if f == "iterator":
+        return iter(list(xs))
+    if f == "generator":
+        return (x for x in list(xs))
+    return list(xs)
 
 
 class Op:
@@ -156,14 +174,15 @@ class Engine:
         if self.invalid() and pool:
             xs = xs + [self.pick(pool)]
             st = "random"
-        if self.r.random() < 0.5:
-            return xs, st
-        return set(xs) if all(not isinstance(x, BaseOuterPin) for x in xs) else xs, st
+        xs = BulkArg(xs)
+        hashable = all(not isinstance(x, BaseOuterPin) for x in xs)
+        xs.form = self.r.choice(["list", "list", "set", "tuple", "iterator", "generator"] if hashable else ["list", "tuple", "iterator", "generator"])
+        return xs, st
 
     def op_remove_libraries_from(self):
         n = self.pick(self.u.netlists)
         xs, st = self._bulk(n.libraries, self.u.libs)
-        return Op("Netlist.remove_libraries_from", lambda: n.remove_libraries_from(xs), "remove_libraries_from(%d)" % len(xs), st, n, (xs,))
+        return Op("Netlist.remove_libraries_from", lambda: n.remove_libraries_from(as_arg(xs)), "remove_libraries_from(%d,%s)" % (len(xs), xs.form), st, n, (xs,))
 
     def _perm(self, members, pool, maker=None):
         base = list(members)
@@ -190,12 +209,19 @@ class Engine:
 
     def _setter(self, obj, attr, label, pool):
         L, st = self._perm(getattr(obj, attr), pool)
-        form = self.r.choice(["list", "list", "tuple", "iterator", "generator", "reversed"])
+        form = self.r.choice(["list", "list", "tuple", "iterator", "generator", "reversed", "view-copy"])
+
+        def view_copy():
+            # the idiom  order = x.children.copy(); <edit order>; x.children = order  (copy() of the read-only view)
+            c = getattr(obj, attr).copy()
+            del c[:]
+            c.extend(L)
+            return c
 
         def fn():
             # the documented argument is "a reordered list"; any iterable is accepted by the setters
             v = {"list": lambda: L, "tuple": lambda: tuple(L), "iterator": lambda: iter(L),
-                 "generator": lambda: (x for x in L), "reversed": lambda: reversed(L[::-1])}[form]()
+                 "generator": lambda: (x for x in L), "reversed": lambda: reversed(L[::-1]), "view-copy": view_copy}[form]()
             setattr(obj, attr, v)
         return Op(label, fn, "%s=(%s,%d,%s)" % (attr, st, len(L), form), st, obj, (L,))
 
@@ -235,16 +261,26 @@ class Engine:
             return None
         src = self.pick(cands)
         widths = [len(p.pins) for p in src.ports]
-        same = self.r.random() < 0.5
-        if not same:
+        kind = self.r.choice(["same", "same", "last port wider", "last port wider", "widths permuted"])
+        same = kind == "same"
+        if kind == "last port wider":
             widths[-1] += 1
+        elif kind == "widths permuted":
+            # same number of ports, same total number of pins, another distribution over the ports
+            if len(widths) >= 2 and len(set(widths)) > 1:
+                widths = widths[1:] + widths[:1]
+            elif len(widths) >= 2 and widths[0] >= 1:
+                widths[0] -= 1
+                widths[-1] += 1
+            else:
+                widths[-1] += 1
 
         def mk():
             d = sdn.Definition()
             for w in widths:
                 d.create_port(pins=w or None)
             return d
-        return Op("Definition()", mk, "Definition(shape sibling,%s)" % ("same" if same else "last port wider"), "valid")
+        return Op("Definition()", mk, "Definition(shape sibling,%s)" % kind, "valid")
 
     # ------------------------------------------------------------------ definitions in libraries
     def op_create_definition(self):
@@ -279,7 +315,7 @@ class Engine:
         if l is None:
             return None
         xs, st = self._bulk(l.definitions, self.u.defs)
-        return Op("Library.remove_definitions_from", lambda: l.remove_definitions_from(xs), "remove_definitions_from(%d)" % len(xs), st, l, (xs,))
+        return Op("Library.remove_definitions_from", lambda: l.remove_definitions_from(as_arg(xs)), "remove_definitions_from(%d,%s)" % (len(xs), xs.form), st, l, (xs,))
 
     def op_set_definitions(self):
         l = self.pick(self.u.libs)
@@ -336,7 +372,7 @@ class Engine:
         if d is None:
             return None
         xs, st = self._bulk(d.ports, self.u.ports)
-        return Op("Definition.remove_ports_from", lambda: d.remove_ports_from(xs), "remove_ports_from(%d)" % len(xs), st, d, (xs,))
+        return Op("Definition.remove_ports_from", lambda: d.remove_ports_from(as_arg(xs)), "remove_ports_from(%d,%s)" % (len(xs), xs.form), st, d, (xs,))
 
     def op_set_ports(self):
         d = self._def()
@@ -398,7 +434,7 @@ class Engine:
         if p is None:
             return None
         xs, st = self._bulk(p.pins, self.u.ipins + self.all_outer()[:2])
-        return Op("Port.remove_pins_from", lambda: p.remove_pins_from(xs), "remove_pins_from(%d)" % len(xs), st, p, (xs,))
+        return Op("Port.remove_pins_from", lambda: p.remove_pins_from(as_arg(xs)), "remove_pins_from(%d,%s)" % (len(xs), xs.form), st, p, (xs,))
 
     def op_set_pins(self):
         p = self._port()
@@ -446,7 +482,7 @@ class Engine:
         if d is None:
             return None
         xs, st = self._bulk(d.cables, self.u.cables)
-        return Op("Definition.remove_cables_from", lambda: d.remove_cables_from(xs), "remove_cables_from(%d)" % len(xs), st, d, (xs,))
+        return Op("Definition.remove_cables_from", lambda: d.remove_cables_from(as_arg(xs)), "remove_cables_from(%d,%s)" % (len(xs), xs.form), st, d, (xs,))
 
     def op_set_cables(self):
         d = self.pick(self.u.defs)
@@ -491,7 +527,7 @@ class Engine:
         if c is None:
             return None
         xs, st = self._bulk(c.wires, self.u.wires)
-        return Op("Cable.remove_wires_from", lambda: c.remove_wires_from(xs), "remove_wires_from(%d)" % len(xs), st, c, (xs,))
+        return Op("Cable.remove_wires_from", lambda: c.remove_wires_from(as_arg(xs)), "remove_wires_from(%d,%s)" % (len(xs), xs.form), st, c, (xs,))
 
     def op_set_wires(self):
         c = self.pick(self.u.cables)
@@ -542,7 +578,7 @@ class Engine:
         if d is None:
             return None
         xs, st = self._bulk(d.children, self.u.insts)
-        return Op("Definition.remove_children_from", lambda: d.remove_children_from(xs), "remove_children_from(%d)" % len(xs), st, d, (xs,))
+        return Op("Definition.remove_children_from", lambda: d.remove_children_from(as_arg(xs)), "remove_children_from(%d,%s)" % (len(xs), xs.form), st, d, (xs,))
 
     def op_set_children(self):
         d = self.pick(self.u.defs)
